@@ -51,6 +51,18 @@ CHECKS = {
  "C18": ("exploration", "twin-store differential testing through the middleware; parked ReportFn schedules with count-based accounting",
          "Every call goes through verifier.LogStore over store A and directly to an identical store B; results and full stored contents compared after every call (only a leader checkpoint's empty Extensions may gain the 24-byte metadata; foreign Extensions on a checkpoint must be refused). ReportFn parked for 0-6 checkpoint arrivals incl. multi-checkpoint batches: StoreLogs must return; checkpoints_written == delivered + dropped_reports; the report following a drop must name the skipped range. Runs under the race detector.",
          "a StoreLogs that has not returned after 20s with its goroutine inside the verifier while the harness holds ReportFn is counted as blocked", "E4 vsim", "4 C18"),
+ "C06": ("exploration", "history recording at the API boundary + single-writer version-interval linearizability check, cross-checked by porcupine; race detector",
+         "One writer (appends with rotation, head/tail truncation, re-append of different content, base-index reset) against 2-8 readers under seeded hook perturbation, plus directed scripts parking a reader in every named window while each writer op kind completes; each read must equal the answer of a version that could have been current during its interval, errors other than not-found only for indexes an overlapping truncation removed, entries only after their batch's fsync completed; any race report with raft-wal frames is a violation.",
+         "logical-clock tickets; Go race detector; porcupine v1.3.0", "E2 sched+hist", "4 C06"),
+ "C10": ("fault_enumeration", "per-call fault injection (before/after effect, once/sticky, pairs) into re-executed workloads with applied-or-not candidate oracle",
+         "Every VFS/MetaStore call of each workload's golden run is made to fail in turn (before effect; after effect for mutating calls; sticky; pairs in thorough); the workload continues with successful operations and a clean reopen; acknowledged entries must stay intact in-process and after reopen, failed appends invisible in-process, every failed call applied in full or not at all after reopen.",
+         "simfs/simmeta fault model; refusal of further writes after a fault is not counted", "E1 faults", "4 C10"),
+ "C11": ("exploration", "structure-aware corruption of valid directories under panic recovery, a VFS-enforced I/O step budget and an allocation bound",
+         "11 file mutation operators and 11 metadata edits over generated directories, then Open + GetLog of everything + DumpLogs + Decode; never panic, never exceed the I/O step budget (logical 'loops forever') or the allocation bound; sealed segment missing / shorter than its header / foreign header must fail Open; a failed Open leaves no VFS handle or meta store open and, on a real directory with BoltDB, a second Open returns; Decode of structurally invalid encodings errors.",
+         "single-threaded TotalAlloc deltas; 30s wall-clock watchdog only for pure-CPU loops", "E6 mutate", "4 C11"),
+ "C14": ("exploration", "directed schedules through hook points (method x parking point x Close position) + stress, outcome classification, race detector",
+         "Every LogStore/StableStore method parked at every hook point on its path while Close runs (or Close parked while the method runs); results must be correct or ErrClosed, never panic / other error / deadlock (goroutine blocked inside raft-wal after everything was released); after Close: all methods ErrClosed, second Close nil, rotation goroutine exited, no handles open, reopen shows everything acknowledged.",
+         "hook points added under build tag verif; 15s watchdog whose expiry is a violation only with the goroutine blocked inside raft-wal", "E2 sched", "4 C14"),
 }
 
 NOT_YET = {}
@@ -89,6 +101,9 @@ def main():
         "engines": [
             {"name": "E4 model", "path": "checks/c05.go c12.go c15.go c19.go c20.go, internal/model", "serves_properties": ["C05", "C12", "C15", "C19", "C20"], "kind_free_text": "sequential/differential monitors of the real code against small executable reference models"},
             {"name": "E4 vsim", "path": "internal/vsim, checks/c16.go c17.go c18.go", "serves_properties": ["C16", "C17", "C18"], "kind_free_text": "cluster of real verifier.LogStore middlewares over in-memory stores with harness ground truth, fault injection and parked callbacks"},
+            {"name": "E2 sched+hist", "path": "internal/sched, internal/hist, checks/c06.go c14.go", "serves_properties": ["C06", "C14"], "kind_free_text": "hook-point scheduling (directed parking, seeded perturbation), API-boundary history recording, interval + porcupine checkers, race detector"},
+            {"name": "E1 faults", "path": "checks/c10.go, internal/simfs", "serves_properties": ["C10"], "kind_free_text": "fault injection at every VFS/MetaStore call of re-executed workloads"},
+            {"name": "E6 mutate", "path": "checks/c11.go", "serves_properties": ["C11"], "kind_free_text": "corruption operators over valid directories with budgets"},
             {"name": "E1 crashsim", "path": "internal/crashsim, internal/simfs", "serves_properties": ["C01", "C02", "C03", "C04", "C13"], "kind_free_text": "production wal+segment over a crash/fault-simulating VFS+MetaStore; snapshots at every I/O boundary; crash images; model oracle"},
         ],
         "checks": checks,
